@@ -50,8 +50,8 @@ theorem optM_den {inC : Str → Except Err (Val F)} {o : Option Str} {ov : Optio
     simp [optM, hv]
 
 /-- a well-formed declaration (no default) always yields the schema of its denotation -/
-theorem mkSchema_denotes (tb : Table) (row : TypeRow) (d : Decl) (dv : DeclVals F)
-    (hd : Denotes (coercePython fo tb row) d dv) (hdef : d.default = none) :
+theorem mkSchema_denotes_default (tb : Table) (row : TypeRow) (d : Decl) (dv : DeclVals F)
+    (hd : Denotes (coercePython fo tb row) d dv) (hdef : schemaDefault fo tb row d.default = .ok ()) :
     mkSchema fo tb row true d =
       .ok { ty := row.ty, requireTz := row.requireTz, allowed := dv.allowed, min := dv.min, max := dv.max } := by
   obtain ⟨hr, ha⟩ := hd
@@ -77,8 +77,33 @@ theorem mkSchema_denotes (tb : Table) (row : TypeRow) (d : Decl) (dv : DeclVals 
       rw [hdr] at hr
       simp [optM_den hr.1, optM_den hr.2]
   unfold mkSchema
-  rw [h1, h2]
-  simp [schemaDefault, hdef, nonEmpty]
+  rw [h1, h2, hdef]
+
+/-- the conversion of a declared default succeeds when there is none (or an empty one), for the boolean
+    row, and otherwise when the source converts it with the row's own `"in"` entry and the text denotes a value -/
+theorem schemaDefault_ok (tb : Table) (row : TypeRow) (o : Option Str)
+    (h : nonEmpty o = none ∨ row.ty = .bool
+      ∨ (tb.defaultViaIn = true ∧ ∀ s, nonEmpty o = some s → ∃ v, coercePython fo tb row s = .ok v)) :
+    schemaDefault fo tb row o = .ok () := by
+  unfold schemaDefault
+  cases hn : nonEmpty o with
+  | none => rfl
+  | some s =>
+    simp only
+    rcases h with h | h | ⟨hvia, h⟩
+    · rw [hn] at h; cases h
+    · simp [h]
+    · obtain ⟨v, hv⟩ := h s hn
+      by_cases hb : (row.ty == PyType.bool) = true
+      · simp [hb]
+      · simp [hb, hvia, hv]
+
+/-- a well-formed declaration without default always yields the schema of its denotation -/
+theorem mkSchema_denotes (tb : Table) (row : TypeRow) (d : Decl) (dv : DeclVals F)
+    (hd : Denotes (coercePython fo tb row) d dv) (hdef : d.default = none) :
+    mkSchema fo tb row true d =
+      .ok { ty := row.ty, requireTz := row.requireTz, allowed := dv.allowed, min := dv.min, max := dv.max } :=
+  mkSchema_denotes_default fo tb row d dv hd (by simp [schemaDefault, hdef, nonEmpty])
 
 /-- the schema's check is the property's acceptance predicate for the denoted declaration -/
 theorem check_eq_accept (ty : PyType) (tz : Bool) (dv : DeclVals F) (v : Val F) :
